@@ -8,6 +8,14 @@ CHECKS = {
          "samples programmes/knobs/schedules; no injected faults; write errors that kevo itself reports count as no-effect"),
  "C02": ("fault_enumeration", "4 (C02)", "every state-changing I/O point of a generated run is a crash point: stop before / after / torn at up to 5 offsets, under process-death and (with synchronous logging) power-loss images; the reopened state must equal a prefix state within [acknowledged, issued]; plus sampled multi-crash cycles and clean close",
          "enumeration is complete per generated programme (all I/O points), programmes are sampled; POWER-DATA model treats directory operations as durable and exempts MANIFEST"),
+ "C08": ("exploration", "4 (C08)", "single-writer programmes with explicit and automatic log rotations, clean restarts and process crashes; after every acknowledged write the reported last sequence must exceed every earlier surviving write's, and the stored log entries (file order, wal.ReplayWALDir) must form strictly increasing sequence groups at every open and at the end",
+         "crashes here stop the process between I/O points only (C02 enumerates the points); the replication protocol's view of the sequence is checked under C13/C14"),
+ "C09": ("exploration", "4 (C09)", "generated entry sequences (lengths around 0, 1, the 32KB record limit, multi-fragment keys and values, batches beyond the 64KB buffer) through the real wal package on the simulated disk with short reads, rotation and reopen; ReplayWALDir and GetEntriesFrom(s) compared with a single-copy log",
+         "mostly generated input through an I/O surface; the simulated parts are short reads, rotation and reopen; crash and damage are C02/C10"),
+ "C10": ("fault_enumeration", "4 (C10)", "stored-image damage enumerated per generated log: every truncation offset of the newest log file (all bytes for small files, else every record boundary +-8 and 64 random offsets) and single-byte corruption of all header bytes of every record plus sampled payload bytes x 4 value classes; each image is recovered by the real engine and judged against the undamaged-prefix state; a sample continues with further acknowledged writes and a second (clean or crash) recovery",
+         "corruption is applied to the newest log file only; the harness parses the record framing (7-byte header) to place the damage"),
+ "C11": ("fault_enumeration", "4 (C11)", "generated ascending entry sets written by sstable.Writer to the simulated disk and read back by OpenReader: iteration, Seek targets of 7 kinds followed by Next, SeekToLast, point lookups; repeated under injected read errors and under single-byte corruption of the stored file (sampled positions incl. footer/index; all positions for small files in the thorough tier)",
+         "seek targets and lookups are sampled (about 40 each per table); corruption positions are sampled in the quick tier"),
  "C03": ("fault_enumeration", "4 (C03)", "C02's crash-point enumeration on transaction-heavy programmes (a transaction is one step of the prefix oracle), concurrent visibility of commits under dense scheduling, and sequential no-trace semantics (rollback, oversized entry, injected write/fsync error at commit, abandoned transaction, caller reusing buffers)",
          "as C02; runs in which an injected I/O error is consumed by background maintenance instead of the commit are abandoned (counted in probes)"),
 }
